@@ -50,6 +50,8 @@ pub struct SimOpts {
     pub gate_first: bool,
     /// observe symbols/diagnostics of every file at the end (C26) — costs a few requests
     pub observe_all: bool,
+    /// also compile the final text from scratch in a fresh server instance and observe it the same way (C26)
+    pub reference: bool,
 }
 
 #[derive(Clone, Debug, Default)]
@@ -63,6 +65,10 @@ pub struct Observed {
     pub probe_symbols: Vec<Option<String>>,
     pub diagnostics: Option<String>,
     pub probe_hung: bool,
+    /// observations of a fresh server on the same final text (C26 refinement oracle)
+    pub ref_symbols: Vec<Option<String>>,
+    pub ref_diagnostics: Option<String>,
+    pub ref_failed: Option<String>,
 }
 
 pub struct SimResult {
@@ -244,6 +250,37 @@ pub fn simulate(env: &Env, wl: &Workload, mode: Mode, opts: &SimOpts) -> SimResu
         if !obs.probe_hung {
             obs.diagnostics = diagnostics_text(&state, &uris[0]);
         }
+    }
+    // ---- reference: the same final text compiled from scratch by a fresh instance of the same implementation
+    if opts.reference && !abandoned && !obs.probe_hung {
+        let m = client_model(wl);
+        let texts: Vec<String> = m.docs.iter().map(|d| d.text.clone()).collect();
+        let root2 = env.scratch.join(format!("proj{n}")).join("ref").join("pkg");
+        write_project(&root2, wl, Some(&texts));
+        let uris2: Vec<Url> = wl.files.iter().map(|(rel, _)| Url::from_file_path(root2.join(rel)).unwrap()).collect();
+        let fresh = Arc::new(ServerState::default()); // its worker is not an actor: hooks pass through
+        fresh.config.write().garbage_collection.gc_enabled = wl.gc;
+        let f2 = fresh.clone();
+        let u0 = uris2[0].clone();
+        let t0 = texts[0].clone();
+        let opened = env.rt.block_on(async move { tokio::time::timeout(Duration::from_secs(30), f2.did_open(DidOpenTextDocumentParams { text_document: TextDocumentItem { uri: u0, language_id: "sway".into(), version: 1, text: t0 } })).await });
+        if opened.is_err() {
+            obs.ref_failed = Some("fresh server: didOpen did not return within 30 s".into());
+        } else {
+            for uri in &uris2 {
+                let s2 = fresh.clone();
+                let u2 = uri.clone();
+                match env.rt.block_on(async move { tokio::time::timeout(Duration::from_secs(10), s2.document_symbol(doc_symbol_params(&u2))).await }) {
+                    Err(_) => {
+                        obs.ref_failed = Some("fresh server: documentSymbol timed out".into());
+                        break;
+                    }
+                    Ok(v) => obs.ref_symbols.push(Some(serde_json::to_string(&v.ok().flatten()).unwrap_or_default().replace(root2.to_str().unwrap_or(""), "$ROOT"))),
+                }
+            }
+            obs.ref_diagnostics = diagnostics_text(&fresh, &uris2[0]);
+        }
+        let _ = fresh.shutdown_server();
     }
     // ---- teardown
     let _ = state.shutdown_server();
